@@ -54,8 +54,9 @@ META = {
         "covered only by the corpus/pass oracle; the lexical payload syntax of types and attributes (one opaque "
         "token in the model; C06); type inference through constraint variables; whitespace directives; nested "
         "groups.  Formats that the xDSL format compiler accepts but wfD rejects (ambiguous look-ahead: e.g. an "
-        "optional attribute followed by `[`, a unit attribute outside a group) are not judged, except the one class "
-        "listed as known finding (optional unique-base/typed attribute variable); evidence lists how many of the "
+        "optional attribute followed by `[`, a unit attribute outside a group) are not judged (optional attribute "
+        "variables of the unique-base/typed flavour are modelled like the plain ones: the model is stricter than the real "
+        "parser on the tokens that may follow an absent one); evidence lists how many of the "
         "registered formats are inside the proved fragment / satisfy wfD.  Group consistency "
         "(what an untaken group does not print is empty/default) is the op author's verifier obligation and is a "
         "hypothesis; generated instances satisfy it.  Property perturbation only uses per-entry states witnessed "
@@ -159,9 +160,12 @@ CATALOGUE: list[tuple[str, dict[str, Any]]] = [
     ("default-required-anchor", _spec({"attrs": [["p", "prop", "i64", "req", 1]]}, [_grp(1, [_kw("p"), _a("p")]), _AD])),
     ("default-optional-anchor", _spec({"attrs": [["p", "prop", "any", "opt", 1]]}, [_grp(1, [_kw("p"), _a("p")], [_kw("q")]), _AD])),
     ("default-optional-top", _spec({"attrs": [["p", "prop", "str", "opt", 0]]}, [_kw("p"), _a("p"), _kw("z"), _AD])),
-    # known finding: optional attribute variable with a unique base / fixed type is parsed unconditionally
+    # fix 7: optional attribute variable with a unique base / fixed type was parsed unconditionally
     ("typed-optional-top", _spec({"attrs": [["p", "prop", "i64", "opt", None]]}, [_kw("p"), _a("p"), _kw("z"), _AD])),
-    ("typed-optional-first", _spec({"attrs": [["p", "prop", "i64", "opt", None]]}, [_kw("p"), _grp(0, [_a("p"), _kw("z")]), _AD])),
+    ("typed-optional-first", _spec({"attrs": [["p", "prop", "i64", "opt", None]]}, [_kw("p"), _grp(0, [_a("p"), _kw("z")]), _ADK])),
+    ("typed-optional-f32-first", _spec({"attrs": [["p", "attr", "f32attr", "opt", None]]}, [_kw("p"), _grp(0, [_a("p"), _kw("z")], [_kw("none")]), _ADK])),
+    ("typed-optional-then-operand", _spec({"attrs": [["p", "prop", "i64", "opt", None]], "operands": [["o", "opt", "i32"]]},
+                                          [_kw("p"), _a("p"), _o("o"), _ADK])),
     # assorted well-formed shapes
     ("optional-operand-group-else", _spec({"operands": [["o", "opt", "any"]]}, [_grp(0, [_o("o"), _p(":"), _to("o")], [_kw("none")]), _AD])),
     ("two-variadics-segments", _spec({"operands": [["a", "var", "any"], ["b", "var", "any"]]},
@@ -244,7 +248,7 @@ def classify_generated(spec: dict[str, Any], res: G.CaseResult) -> tuple[str, st
     fmt = G.render_fmt(spec["fmt"])
     stage = rt.stage if rt is not None else "?"
     groups = [d for d in spec["fmt"] if d["k"] == "group"]
-    if res.typed_optional:
+    if res.typed_optional and stage == "parse":
         return (SITE_FP + ".UniqueBaseAttributeVariable.parse_attr",
                 "optional attribute variable with a unique base or fixed type is parsed unconditionally",
                 f"`{fmt}`: the variable prints nothing when the attribute is absent, the parser demands it: {rt.detail if rt else ''}")
@@ -321,7 +325,7 @@ class GenBatch:
             pos += n
             self.judge(spec, inst, r, o)
             d = spec["defs"]
-            if (self.malformed_budget > 0 and o[:3] == ["ok", "ok", "ok"] and o[3] == "true" and o[8] == "true"
+            if (self.malformed_budget > 0 and o[:3] == ["ok", "ok", "ok"] and o[3] == "true" and o[6] == "true"
                     and not d["results"] and not d["regions"] and not d["succs"] and r.rt.ok
                     and not any(t == "T" for _, _, t in d["operands"]) and not _has_value_attr_directive(spec)):
                 toks = [] if o[4] == "-" else o[4].split(" ")
@@ -367,7 +371,7 @@ class GenBatch:
         if o[0] != "ok" or o[1] != "ok" or o[2] != "ok":
             ctx.mismatch("correspondence:C05/decl_format.encoding", case, r.lines[:3], o[:3], "the Lean driver refused the encoded case")
             return
-        wf, ptoks, rtm, wf_alt, frag = o[3], o[4], o[5], o[7], o[8]
+        wf, ptoks, rtm, frag = o[3], o[4], o[5], o[6]
         uses_T = any(t == "T" for _, _, t in spec["defs"]["operands"] + spec["defs"]["results"])
         ctx.count(f"{fam}.wf={wf}")
         if frag == "true":
@@ -397,9 +401,6 @@ class GenBatch:
                                  "instance parsed back by FormatProgram.parse differs from parseD")
         else:
             ctx.count(f"{fam}.nonwf.real_{'ok' if rt.ok else 'fails'}")
-            if not rt.ok and wf_alt == "true" and r.typed_optional:
-                # only defect of the format: an optional unique-base/typed attribute variable where it may be absent
-                self.report(spec, inst, r)
 
     def report(self, spec, inst, r: G.CaseResult) -> None:
         ctx = self.ctx
@@ -424,7 +425,7 @@ def nontrivial_spec(spec) -> bool:
 
 
 def judged_failure(ctx: core.Ctx, spec, inst) -> G.CaseResult | None:
-    """re-run one case; the result when it is a failure the check judges (wfD, or typed-optional only)"""
+    """re-run one case; the result when it is a failure the check judges (wfD holds)"""
     try:
         r = G.run_case(spec, inst)
     except Exception:  # noqa: BLE001
@@ -434,7 +435,7 @@ def judged_failure(ctx: core.Ctx, spec, inst) -> G.CaseResult | None:
     o = ctx.model("decl_format", ["reset"] + r.lines)[1:]
     if o[0] != "ok" or o[1] != "ok" or o[2] != "ok":
         return None
-    if o[3] == "true" or (o[7] == "true" and r.typed_optional):
+    if o[3] == "true":
         return r
     return None
 
